@@ -662,6 +662,9 @@ func genC17(g *Gen, i int) Group {
 	if i%9 == 8 {
 		return g.aliasAfterBuildCase(i)
 	}
+	if i%9 == 1 {
+		return g.rebuildAfterRemovalCase(i)
+	}
 	if i%9 == 2 || i%9 == 7 {
 		return g.snapshotTwins(i)
 	}
@@ -943,6 +946,55 @@ func (g *Gen) aliasRemovalCase(i int) Group {
 		Op{Kind: "resolve", P: 0, H: 1, Ty: b, Name: name}, Op{Kind: "resolve", P: 0, H: 1, Ty: a, Name: name},
 		Op{Kind: "resolve", P: 0, H: 1, Ty: 7, Name: 9}, Op{Kind: "resolve", P: 0, H: 0, Ty: 7, Name: 9}, Op{Kind: "closeprovider", P: 0})
 	return Group{Cases: []Case{{Name: fmt.Sprintf("%d/alias-removal", i), Ops: ops}}}
+}
+
+// rebuildAfterRemovalCase (C17): Build, then ONLY removals (no registration in between), then Build again: the
+// second provider is built from the registrations that are left - nothing of a removed registration runs at the second
+// Build or answers afterwards, whatever the collection kept from the first Build.
+func (g *Gen) rebuildAfterRemovalCase(i int) Group {
+	tys := g.rnd.Perm(16)
+	mk := func(life, ty, name int, deps ...int) *Reg {
+		var ps []Param
+		for _, d := range deps {
+			ps = append(ps, Param{Dep: Dep{Ty: d}})
+		}
+		r := &Reg{ID: g.nextRid, Life: life, Form: Form{Kind: "ctor", Params: ps, Rets: []int{ty}}, Dyn: []int{ty}, CFail: []bool{false}, Name: name}
+		g.nextRid++
+		return r
+	}
+	name := 0
+	if g.p(0.4) {
+		name = 1 + g.n(2)
+	}
+	victimLife := []int{Singleton, Singleton, Scoped, Transient}[g.n(4)]
+	victim := mk(victimLife, tys[0], name)
+	keep := mk(Singleton, tys[1], 0)
+	user := mk(g.life([3]int{2, 1, 1}), tys[2], 0, tys[1])
+	regs := []*Reg{victim, keep, user}
+	if g.p(0.5) {
+		regs = append(regs, mk(Singleton, tys[3], 0))
+	}
+	g.rnd.Shuffle(len(regs), func(a, b int) { regs[a], regs[b] = regs[b], regs[a] })
+	var ops []Op
+	for _, r := range regs {
+		ops = append(ops, Op{Kind: "add", Reg: r})
+	}
+	rm := Op{Kind: "remove", Ty: tys[0]}
+	if name != 0 {
+		rm = Op{Kind: "removekeyed", Ty: tys[0], Name: name}
+	}
+	ops = append(ops, Op{Kind: "build"}, rm, Op{Kind: "count"})
+	if len(regs) == 4 && g.p(0.5) {
+		ops = append(ops, Op{Kind: "remove", Ty: tys[3]})
+	}
+	ops = append(ops, Op{Kind: "build"}, Op{Kind: "count"}, Op{Kind: "slice"})
+	for p := 1; p >= 0; p-- {
+		ops = append(ops, Op{Kind: "createscope", P: p, Parent: 0},
+			Op{Kind: "resolve", P: p, H: 1, Ty: tys[0], Name: name}, Op{Kind: "resolve", P: p, H: 1, Ty: tys[2]},
+			Op{Kind: "resolve", P: p, H: 0, Ty: tys[1]}, Op{Kind: "resolve", P: p, H: 1, Ty: tys[3]})
+	}
+	ops = append(ops, Op{Kind: "closeprovider", P: 1}, Op{Kind: "closeprovider", P: 0})
+	return Group{Cases: []Case{{Name: fmt.Sprintf("%d/rebuild-after-removal", i), Ops: ops}}}
 }
 
 // wideTree: a scope with several children (created without a context of their own, so that closing the
